@@ -53,13 +53,11 @@ func newIntake(w *World) *Intake {
 	return in
 }
 
-// expectedValidatorArgs is the (from, until) pair the parser must hand to the time validator (C09).
-func (w *World) expectedValidatorArgs(tr *ref.Truth) (int64, int64) {
-	until := tr.Until
-	if until == 0 && tr.From != 0 {
-		until = tr.From + int64(w.Plan.Swarm.TimeDelta)
-	}
-	return tr.From, until
+// expectedValidatorArgs is the (from, until) pair the parser must hand to the time validator (C09); ok is false when the
+// default expiry from + delta is not an int64 (nothing is demanded of the second argument then).
+func (w *World) expectedValidatorArgs(tr *ref.Truth) (from, until int64, ok bool) {
+	until, ok = ref.DefaultUntil(tr.From, tr.Until, uint64(w.Plan.Swarm.TimeDelta))
+	return tr.From, until, ok
 }
 
 func (in *Intake) Receive(op *BuiltOp) {
@@ -72,7 +70,11 @@ func (in *Intake) Receive(op *BuiltOp) {
 
 	argsOK := true
 	if op.Honest && op.Truth.Kind != ref.Create && in.rec.called > 0 {
-		ef, eu := w.expectedValidatorArgs(&op.Truth)
+		ef, eu, representable := w.expectedValidatorArgs(&op.Truth)
+		if !representable {
+			w.T.Probe("window_default_expiry_not_int64")
+			eu = in.rec.until
+		}
 		if w.CheckWindowArgs {
 			w.T.Count("validator_calls_checked", 1)
 			if in.rec.from != ef || in.rec.until != eu {
@@ -157,9 +159,9 @@ func (w *World) serverWindowOK(tr *ref.Truth) bool {
 	if tr.Kind == ref.Create {
 		return true
 	}
-	f, u := w.expectedValidatorArgs(tr)
+	f, u, ok := w.expectedValidatorArgs(tr)
 	now := w.Now("intake")
-	return !(f != 0 && f > now) && !(u != 0 && u < now)
+	return !(f != 0 && f > now) && !(ok && u != 0 && u < now)
 }
 
 // ---------------------------------------------------------------- ledger (stub)
@@ -254,9 +256,25 @@ func (l *Ledger) Cut() {
 		for e := r.Intn(4); e > 0; e-- {
 			meta.Equivalent = append(meta.Equivalent, fmt.Sprintf("hl:uEiBlock%d:alt%d", height, e))
 		}
+		if rs := r.Stream("shared-refs"); meta.Canonical != "" && rs.Chance(1, 3) {
+			// the references come from one name space: the canonical reference may be listed among the equivalent ones (any
+			// position), and an equivalent reference may be listed twice
+			at := rs.Intn(len(meta.Equivalent) + 1)
+			eq := append([]string{}, meta.Equivalent[:at]...)
+			eq = append(eq, meta.Canonical)
+			meta.Equivalent = append(eq, meta.Equivalent[at:]...)
+			if rs.Chance(1, 3) {
+				meta.Equivalent = append(meta.Equivalent, meta.Equivalent[rs.Intn(len(meta.Equivalent))])
+			}
+			w.T.Probe("canonical_reference_among_equivalent")
+		}
 		a := *p.anch
 		a.TransactionTime, a.TransactionNumber, a.ProtocolVersion = meta.Time, meta.Number, meta.Version
-		a.CanonicalReference, a.EquivalentReferences = meta.Canonical, meta.Equivalent
+		// the library gets its own slice (full to capacity, as decoded data is): the oracle's copy must not follow in-place edits
+		a.CanonicalReference, a.EquivalentReferences = meta.Canonical, nil
+		if len(meta.Equivalent) > 0 {
+			a.EquivalentReferences = append(make([]string, 0, len(meta.Equivalent)), meta.Equivalent...)
+		}
 		rec := &AnchoredRec{Op: &a, Built: p.built, Height: height, Index: i, Meta: meta, Via: p.via}
 		block = append(block, rec)
 		w.Model.Anchored(rec)
